@@ -144,7 +144,10 @@ func ReplaceEnums(ana *analysis.Analysis, content string) string {
 	return reEnums.ReplaceAllStringFunc(content, func(s string) string {
 		s = s[2 : len(s)-1] // trim starting #[ and leading ]
 		typeName, varName, _ := strings.Cut(s, ".")
-		enum := ana.GetByName(typeName).(*analysis.Enum)
+		enum, ok := ana.GetByName(typeName).(*analysis.Enum)
+		if !ok {
+			panic(fmt.Sprintf("unknown enum type %s in placeholder #[%s]", typeName, s))
+		}
 		enumValue := enum.Get(varName)
 		return fmt.Sprintf("%s /* %s.%s */", enumValue.Const.Val().ExactString(), typeName, varName)
 	})
